@@ -19,6 +19,9 @@ pub struct TxR {
     certs: Vec<(bool, u8)>,
     /// break value preservation (the transaction is invalid for a reason unrelated to certificates)
     unbalanced: bool,
+    /// re-registrations of the pool the rich initial state holds (0x71), each with its own cost (340 ada + n)
+    #[serde(default)]
+    pool_updates: Vec<u16>,
 }
 
 #[derive(Debug, Clone, Serialize, Deserialize)]
@@ -88,7 +91,7 @@ fn snapshot(cs: &CertState) -> String {
     ptrs.sort();
     let mut pools: Vec<String> = cs.pstate.pool_params.keys().map(|k| k.to_string()).collect();
     pools.sort();
-    let mut fpools: Vec<String> = cs.pstate.fut_pool_params.keys().map(|k| k.to_string()).collect();
+    let mut fpools: Vec<String> = cs.pstate.fut_pool_params.iter().map(|(k, p)| format!("{k}:cost={},pledge={}", p.cost, p.pledge)).collect();
     fpools.sort();
     let mut retiring: Vec<String> = cs.pstate.retiring.iter().map(|(k, e)| format!("{k}@{e}")).collect();
     retiring.sort();
@@ -126,6 +129,7 @@ fn check(c: &Case, obs: &mut Obs) -> Result<(), Fail> {
             early_multiasset: false,
             ref_inputs: 0,
             donation: None,
+            pool_updates: if c.rich { t.pool_updates.iter().map(|n| (0x71u8, 340_000_000 + *n as u64)).collect() } else { vec![] },
         };
         let tw = Tweaks { change_delta: if t.unbalanced { 1 } else { 0 }, ..Default::default() };
         match forge::forge_with(&spec, &tw) {
@@ -223,13 +227,26 @@ fn check(c: &Case, obs: &mut Obs) -> Result<(), Fail> {
                 obs.class("pointer-position-checked");
             }
         }
+        // what the re-registrations mean, without the single-transaction rule: the pool's future parameters are those of the
+        // last re-registration of the sequence
+        if c.rich {
+            if let Some(n) = c.txs.iter().flat_map(|t| t.pool_updates.iter()).last() {
+                let want = 340_000_000 + *n as u64;
+                let op: pallas_primitives::PoolKeyhash = [0x71u8; 28].into();
+                let got = live.pstate.fut_pool_params.get(&op).map(|p| p.cost);
+                pv_ensure!(got == Some(want), "future-pool-parameters-not-those-of-the-last-re-registration",
+                    "the sequence re-registers pool 71.. {} time(s), last with cost {want}; the state's future parameters have cost {:?}",
+                    c.txs.iter().map(|t| t.pool_updates.len()).sum::<usize>(), got);
+                obs.class(if c.txs.iter().map(|t| t.pool_updates.len()).sum::<usize>() > 1 { "pool-re-registered-more-than-once" } else { "pool-re-registered-once" });
+            }
+        }
         obs.class("all-valid");
-        obs.nontrivial_if(c.txs.iter().any(|t| !t.certs.is_empty()));
+        obs.nontrivial_if(c.txs.iter().any(|t| !t.certs.is_empty() || (c.rich && !t.pool_updates.is_empty())));
     } else {
         pv_ensure!(r.is_err(), "invalid-sequence-accepted", "transaction {failing_at:?} fails on its own but validate_txs returned Ok");
         pv_ensure!(after == before, "state-changed-by-failed-sequence",
             "validate_txs failed (transaction {failing_at:?}) but the caller's state changed from {before} to {after}");
-        let state_changing_before = c.txs.iter().take(failing_at.unwrap_or(0)).any(|t| !t.certs.is_empty());
+        let state_changing_before = c.txs.iter().take(failing_at.unwrap_or(0)).any(|t| !t.certs.is_empty() || (c.rich && !t.pool_updates.is_empty()));
         obs.class(if state_changing_before { "failure-after-state-change" } else { "failure-first" });
         obs.nontrivial_if(state_changing_before);
     }
@@ -237,8 +254,9 @@ fn check(c: &Case, obs: &mut Obs) -> Result<(), Fail> {
 }
 
 fn tx_r() -> impl Strategy<Value = TxR> {
-    (0u8..3, 20_000_000u64..60_000_000, prop::collection::vec((any::<bool>(), 10u8..14), 0..3), prop::bool::weighted(0.15))
-        .prop_map(|(key, coin, certs, unbalanced)| TxR { key, coin, certs, unbalanced })
+    (0u8..3, 20_000_000u64..60_000_000, prop::collection::vec((any::<bool>(), 10u8..14), 0..3), prop::bool::weighted(0.15),
+        prop_oneof![4 => Just(vec![]), 2 => prop::collection::vec(any::<u16>(), 1..=1), 1 => prop::collection::vec(any::<u16>(), 2..=2)])
+        .prop_map(|(key, coin, certs, unbalanced, pool_updates)| TxR { key, coin, certs, unbalanced, pool_updates })
 }
 
 pub fn run(s: &Session) {
